@@ -182,19 +182,21 @@ TIGHT = dict(atol=1e-11, rtol=1e-14)
 BLOCK = ('runonce', 'lbgs', 'lbjac')
 
 
-def _linear_solver(kind, assemble, rhs=None):
+def _linear_solver(kind, assemble, rhs=None, err=True):
+    """err: raise AnalysisError when an iterative linear solver reports non-convergence (OpenMDAO's default is to
+    print a message and carry on with whatever is in the vectors)"""
     kw = {}
     if rhs is not None and kind in ('direct', 'krylov'):
         kw['rhs_checking'] = dict(rhs) if isinstance(rhs, dict) else bool(rhs)
     if kind == 'direct':
         return om.DirectSolver(assemble_jac=assemble, **kw)
     if kind == 'krylov':
-        s = om.ScipyKrylov(assemble_jac=assemble, maxiter=500, atol=1e-13, rtol=1e-14, restart=60, **kw)
-        return s
+        return om.ScipyKrylov(assemble_jac=assemble, maxiter=500, atol=1e-13, rtol=1e-14, restart=60,
+                              err_on_non_converge=err, **kw)
     if kind == 'lbgs':
-        return om.LinearBlockGS(assemble_jac=assemble, maxiter=300, err_on_non_converge=True, **TIGHT)
+        return om.LinearBlockGS(assemble_jac=assemble, maxiter=300, err_on_non_converge=err, **TIGHT)
     if kind == 'lbjac':
-        return om.LinearBlockJac(assemble_jac=assemble, maxiter=300, err_on_non_converge=True, **TIGHT)
+        return om.LinearBlockJac(assemble_jac=assemble, maxiter=300, err_on_non_converge=err, **TIGHT)
     if kind == 'runonce':
         return om.LinearRunOnce(assemble_jac=assemble)
     raise ValueError(kind)
@@ -342,21 +344,22 @@ def build(spec, cfg):
             g.nonlinear_solver.options['iprint'] = -1
         ls = None
         rhs = cfg.get('rhs')
+        err = bool(cfg.get('err', True))
         if lin in ('direct', 'krylov') and glen == 0:
-            ls = _linear_solver(lin, assemble, rhs)
+            ls = _linear_solver(lin, assemble, rhs, err=err)
         elif lin in ('direct_cyc', 'krylov_cyc'):
-            ls = _linear_solver(lin[:-4], assemble, rhs) if is_cyc else _linear_solver('runonce', False)
+            ls = _linear_solver(lin[:-4], assemble, rhs, err=err) if is_cyc else _linear_solver('runonce', False, err=err)
         elif lin in ('direct_sub', 'krylov_sub'):
             if glen == 1:
-                ls = _linear_solver(lin[:-4], assemble, rhs)
+                ls = _linear_solver(lin[:-4], assemble, rhs, err=err)
             elif glen == 0:
-                ls = _linear_solver('lbgs' if is_cyc else 'runonce', False)
+                ls = _linear_solver('lbgs' if is_cyc else 'runonce', False, err=err)
         elif lin in ('lbgs', 'lbjac'):
-            ls = _linear_solver(lin, False)
+            ls = _linear_solver(lin, False, err=err)
         elif lin == 'runonce':
-            ls = _linear_solver('lbgs' if is_cyc else 'runonce', False)
+            ls = _linear_solver('lbgs' if is_cyc else 'runonce', False, err=err)
         elif is_cyc:
-            ls = _linear_solver('direct', False)
+            ls = _linear_solver('direct', False, err=err)
         if ls is not None:
             g.linear_solver = ls
             ls.options['iprint'] = -1
